@@ -49,7 +49,15 @@ for m in mutants.M:
     if s.count(m['old']) != m['count']:
         report(m['name'], False, 'anchor text not found %d times in %s (mutant out of date)' % (m['count'], m['file']))
         continue
-    open(f, 'w').write(s.replace(m['old'], m['new']))
+    s = s.replace(m['old'], m['new'])
+    okm = True
+    for (o2, n2) in m.get('more', ()):
+        if s.count(o2) != 1:
+            okm = False
+        s = s.replace(o2, n2)
+    if not okm:
+        report(m['name'], False, 'secondary anchor text not found'); continue
+    open(f, 'w').write(s)
     res = run_checks([p for p in m['expect'] if p in claimed])
     for p, subs in m['expect'].items():
         if p not in claimed:
